@@ -3093,3 +3093,63 @@ C13_PAIRWISE = dict(
     raises=[("should be filtered before using this method", 6)],
 )
 ALL += [C13_PAIRWISE]
+
+# ---- C20: models/main.py ModelEvaluation.save_h5 / load_h5 (vocabulary: last part of Model/Metrics.v; proofs Proofs/C20SourceIO.v) ----
+# The HDF5 file is `evraw`: its datasets by name, in creation order.  Trusted per entry, ONE h5py call / attribute read each:
+#   h5py.File(fn, "w") = a new empty file;  h5py.File(fn, "r") = what the file holds (the parameter h5)
+#   f.create_dataset(NAME, data=d, compression="gzip")  appends (NAME, d) to the datasets; an existing NAME raises
+#   f[NAME][:]                                          the stored array (KeyError when absent, tag 32 for another kind)
+#   self.predictions / .observations / .chain_ids / .sample_names   run the translated properties; the 2-d predictions array is
+#       the stored rows with shape[1] = the parameter ncols (as in C20_EV_INIT / C20_EV_INTER_CHAIN)
+#   encode_string_array / decode_string_array (batchie.data) are translated themselves (C20_EVIO_CODEC); inside them
+#       arr.size == 0, np.empty(arr.shape, dtype=...) (= arr where it has no element), np.char.encode / decode (the identity on
+#       the strings of an array WITH elements; numpy answers an array without elements with a float64 array: an error)
+#   cls(predictions=, observations=, chain_ids=, sample_names=)   a fresh instance initialised by the translated __init__
+# NAME is matched literally per dataset: an unknown name has no primitive and stops the build.  str arrays (`list pyname`)
+# and bytes arrays (`list bstr`) are different type names, so a missing codec call is refused.
+_C20_IO = dict(file="src/batchie/models/main.py", cls="ModelEvaluation", out="SrcEvalIO.v",
+               imports="Model.Metrics Generated.SrcMetrics", overload=True)
+_EVIO_KINDS = [("predictions", "EV_F2", "evraw_read_f2", "mat2"), ("observations", "EV_F1", "evraw_read_f1", _QS),
+               ("chain_ids", "EV_I1", "evraw_read_i1", _ZS), ("sample_names", "EV_S1", "evraw_read_s1", "list bstr")]
+
+
+def _evio_codec(func, src_t, dst_t, call, empty):
+    """the module-level helper `func` of data.py on a 1-d array: the `arr.size == 0` guard, np.empty, np.char.<codec>"""
+    return dict(file="src/batchie/data.py", out="SrcEvalIO.v", imports="Model.Metrics Generated.SrcMetrics",
+                func=func, name="src_ev_" + func, pyparams=["arr"], params=[("arr", src_t)], returns=dst_t, vars={},
+                prims=[("arr.size == 0", "ev_arr_empty arr'", "bool"),
+                       (empty, "!ev_empty_like arr'", dst_t),
+                       (call, "!ev_char_codec arr'", dst_t)])
+
+
+C20_EVIO_CODEC = [_evio_codec("encode_string_array", "list pyname", "list bstr", "np.char.encode(arr)", "np.empty(arr.shape, dtype='S1')"),
+                  _evio_codec("decode_string_array", "list bstr", "list pyname", "np.char.decode(arr, 'utf-8')", "np.empty(arr.shape, dtype=str)")]
+# the property ModelEvaluation.sample_names (`return self._sample_names`)
+C20_EV_SAMPLE_NAMES = dict(_C20_EV, func="sample_names", name="src_ev_sample_names", returns="list list Z", fields=_EV_FIELDS4,
+                           out="SrcEvalIO.v", imports="Model.Metrics Generated.SrcMetrics")
+C20_EVIO_SAVE = dict(
+    _C20_IO, func="save_h5", name="src_ev_save_h5", pyparams=["self", "fn"],
+    params=[("ncols", "nat"), ("self", "evaluation")], returns="evraw",       # returns what has been written to `fn`
+    vars={"f": "evraw"},
+    contexts=[("h5py.File(fn, 'w')", "evraw_empty", "evraw")],
+    prims=[("self.predictions", "!(dor p__ <- src_ev_predictions self'; Ok (as_mat2 ncols p__))", "mat2"),
+           ("self.observations", "!src_ev_observations self'", _QS),
+           ("self.chain_ids", "!src_ev_chain_ids self'", _ZS),
+           ("self.sample_names", "!src_ev_sample_names self'", "list pyname"),
+           ("encode_string_array(__a)", "!src_ev_encode_string_array {a}", "list bstr", {"a": "list pyname"})],
+    effects=[("f.create_dataset('%s', data=__d, compression='gzip')" % n, "f'", "!evraw_create {state} EK_%s (%s {d})" % (n, k))
+             for n, k, _, _ in _EVIO_KINDS],
+    implicit_return="{f}",
+)
+C20_EVIO_LOAD = dict(
+    _C20_IO, func="load_h5", name="src_ev_load_h5", pyparams=["cls", "fn"],
+    params=[("h5", "evraw")], returns="evaluation",       # h5 = what the file at `fn` holds
+    vars={"f": "evraw", "predictions": "mat2", "observations": _QS, "chain_ids": _ZS, "sample_names": "list pyname"},
+    contexts=[("h5py.File(fn, 'r')", "h5", "evraw")], with_return=True,
+    prims=[("__f['%s'][:]" % n, "!%s {f} EK_%s" % (r, n), t, {"f": "evraw"}) for n, _, r, t in _EVIO_KINDS]
+          + [("decode_string_array(__a)", "!src_ev_decode_string_array {a}", "list pyname", {"a": "list bstr"})],
+    kwcalls={"cls": ("!src_ev_init ev_blank (fst {predictions}) (snd {predictions}) {observations} {chain_ids} {sample_names}", "evaluation",
+                     [("predictions", "mat2", None), ("observations", _QS, None), ("chain_ids", _ZS, None),
+                      ("sample_names", "list pyname", None)])},
+)
+ALL += C20_EVIO_CODEC + [C20_EV_SAMPLE_NAMES, C20_EVIO_SAVE, C20_EVIO_LOAD]
